@@ -40,7 +40,8 @@ def run(ctx, rep):
     f = P.fn('repair_step')
     rep.analysed(f)
     succ = success_stores(f)
-    val = list(f.calls({'is_hash_matching', 'is_parity_matching'}))
+    hm_name = hash_matching_fn(P)
+    val = list(f.calls({hm_name, 'is_parity_matching'}))
     oks = 0
     for s in succ:
         how = None
@@ -56,7 +57,7 @@ def run(ctx, rep):
         oks += 1
     if len(succ) < 3:
         raise AnalysisBroken('repair_step: expected >= 3 success returns')
-    g = P.fn('is_hash_matching')
+    g = P.fn(hm_name)
     rep.analysed(g)
     one = [i for i in g.all_insts() if i.op == 'store' and g.expr(i.ops[1]) == '&retval' and g.const_of(i.ops[0]) == 1]
     ok = len(one) == 1
@@ -424,6 +425,30 @@ def stripe_selection_rule(P, rep, rid):
               function='block_is_enabled', construct='check stripe selection')
 
 
+def hash_matching_fn(P):
+    """name of the function that validates a recovery attempt of repair_step() through the block hashes (is_hash_matching today):
+    by role -- the static callee of repair_step that calls blockcmp() -- so a rename does not lose the anchor"""
+    rs = P.fn('repair_step')
+    c_ = set()
+    for c in rs.calls():
+        g = P.functions.get(c.callee_full) if c.callee_full else None
+        if g is not None and not g.decl and any(True for _ in g.calls('blockcmp')):
+            c_.add(base(g.name))
+    if len(c_) != 1:
+        raise AnalysisBroken('repair_step: the callee that validates a recovery through the block hashes was not identified (%s)' % sorted(c_))
+    return list(c_)[0]
+
+
+def chg_judgement_fn(P):
+    """the function holding the loop that judges rebuilt CHG blocks: repair(), or a static helper split out of it"""
+    def pred(g):
+        return any(g.loop_of(c.block) is not None and any(i.op == 'call' and i.callee == 'block_state_get' and i.block in g.loops[g.loop_of(c.block)] for i in g.all_insts()) for c in g.calls('blockcmp'))
+    f = locate_in_helpers(P, P.fn('repair'), pred)
+    if f is None:
+        raise AnalysisBroken('repair: the loop that judges the rebuilt CHG blocks was not found (neither inline nor in a static helper)')
+    return f
+
+
 def buffer_slot_rule(P, rep, rid):
     """the repair functions receive the stripe buffers indexed by disk slot and the failed blocks as a list; the j-th failed entry is
     the block of slot failed[j].index.  Every access to buffer[] in them must go through that slot number (or address the parity area
@@ -455,7 +480,7 @@ def buffer_slot_rule(P, rep, rid):
                 if len(ps) == 1:
                     role[base(g_.name)] = ps
     hm = [x for x in role if x not in ('repair', 'repair_step')]
-    for fn in ['repair', 'repair_step'] + (['is_hash_matching'] if P.has('is_hash_matching') else hm[:1]):
+    for fn in ['repair', 'repair_step', hash_matching_fn(P)]:
         f = P.fn(fn)
         rep.analysed(f)
         seen = {}
@@ -489,7 +514,7 @@ def chg_decision_table(P):
     Returns {(size, kind, zeros, differs): (is_outofdate, blockcmp_called)}; kinds: INVALID (all 00), ZERO (all FF), REAL."""
     from .. import region as RG
     from .C06 import blk_value
-    f = P.fn('repair')
+    f = chg_judgement_fn(P)
     st = blk_value(P)
     bcs = [c for c in f.calls('blockcmp')]
     lps = {f.loop_of(c.block) for c in bcs if f.loop_of(c.block) is not None}
@@ -595,7 +620,7 @@ def blockcmp_size_rule(P, rep, rid):
     length never matches for a partial block: a matching OLD block is then taken for new data and written back as recovered."""
     rep.rule(rid, 'check.c: the length handed to blockcmp() is the result of file_block_size() for the entry being judged', 2)
     n = 0
-    for fn in ('repair', 'is_hash_matching'):
+    for fn in sorted({base(chg_judgement_fn(P).name), hash_matching_fn(P)}):
         f = P.fn(fn)
         rep.analysed(f)
         for c in f.calls('blockcmp'):
